@@ -236,6 +236,11 @@ class SigmaBase64Modifier(SigmaValueModifier[SigmaString, SigmaString]):
                 "Base64 encoding of strings with wildcards is not allowed",
                 source=self.source,
             )
+        if val.contains_placeholder():
+            raise SigmaValueError(
+                "Base64 encoding of strings with placeholders is not allowed",
+                source=self.source,
+            )
         return SigmaString(b64encode(bytes(val)).decode())
 
 
@@ -252,6 +257,11 @@ class SigmaBase64OffsetModifier(SigmaValueModifier[SigmaString, SigmaExpansion])
         if val.contains_special():
             raise SigmaValueError(
                 "Base64 encoding of strings with wildcards is not allowed",
+                source=self.source,
+            )
+        if val.contains_placeholder():
+            raise SigmaValueError(
+                "Base64 encoding of strings with placeholders is not allowed",
                 source=self.source,
             )
         encoded = bytes(val)  # offsets depend on the number of bytes, not of characters
